@@ -585,7 +585,179 @@ func (a *analyzer) cloneMethod(fd *ast.FuncDecl) {
 			visit(v.Stmt)
 		}
 	}
+	if a.cloneByStructCopy(fd, recvName, recvType, emit) {
+		return
+	}
 	visit(fd.Body)
+}
+
+// stateFields: the fields of T that some method of T assigns (iteration state, as opposed to
+// configuration set once by the builder)
+func (a *analyzer) stateFields(T string) map[string]bool {
+	out := map[string]bool{}
+	for _, af := range a.files {
+		for _, d := range af.Decls {
+			fd, ok := d.(*ast.FuncDecl)
+			if !ok || fd.Body == nil || fd.Recv == nil {
+				continue
+			}
+			rn, rt := recvOf(fd)
+			if rt != T || rn == "" {
+				continue
+			}
+			mark := func(e ast.Expr) {
+				for {
+					switch x := unparen(e).(type) {
+					case *ast.IndexExpr:
+						e = x.X
+						continue
+					case *ast.SelectorExpr:
+						if id, ok := unparen(x.X).(*ast.Ident); ok && id.Name == rn {
+							out[x.Sel.Name] = true
+							return
+						}
+						e = x.X
+						continue
+					case *ast.StarExpr:
+						e = x.X
+						continue
+					}
+					return
+				}
+			}
+			ast.Inspect(fd.Body, func(n ast.Node) bool {
+				switch v := n.(type) {
+				case *ast.AssignStmt:
+					for _, l := range v.Lhs {
+						mark(l)
+					}
+				case *ast.IncDecStmt:
+					mark(v.X)
+				case *ast.CallExpr:
+					// delete(recv.m, k) / append into recv.f is an assignment elsewhere; delete counts
+					if id, ok := unparen(v.Fun).(*ast.Ident); ok && id.Name == "delete" && len(v.Args) == 2 {
+						mark(v.Args[0])
+					}
+				}
+				return true
+			})
+		}
+	}
+	return out
+}
+
+// cloneByStructCopy understands the other way of writing a deep copy:
+//
+//	c := *recv          // every field copied by value
+//	c.F = recv.F.Clone() // overrides
+//	c.G = nil
+//	return &c
+//
+// A field that is not overridden keeps the receiver's value: a sub-query is then SHARED, a field
+// some method assigns (iteration state) is "state-copied" (both rejected by the checker), a
+// configuration field is a plain "value".
+func (a *analyzer) cloneByStructCopy(fd *ast.FuncDecl, recvName, recvType string, emit func(field, class string, at token.Pos)) bool {
+	st := a.structs[recvType]
+	if st == nil || recvName == "" || len(fd.Body.List) < 2 {
+		return false
+	}
+	first, ok := fd.Body.List[0].(*ast.AssignStmt)
+	if !ok || first.Tok != token.DEFINE || len(first.Lhs) != 1 || len(first.Rhs) != 1 {
+		return false
+	}
+	cv, ok := first.Lhs[0].(*ast.Ident)
+	if !ok {
+		return false
+	}
+	se, ok := unparen(first.Rhs[0]).(*ast.StarExpr)
+	if !ok {
+		return false
+	}
+	if id, ok := unparen(se.X).(*ast.Ident); !ok || id.Name != recvName {
+		return false
+	}
+	last, ok := fd.Body.List[len(fd.Body.List)-1].(*ast.ReturnStmt)
+	if !ok || len(last.Results) != 1 {
+		return false
+	}
+	ue, ok := unparen(last.Results[0]).(*ast.UnaryExpr)
+	if !ok || ue.Op != token.AND {
+		return false
+	}
+	if id, ok := unparen(ue.X).(*ast.Ident); !ok || id.Name != cv.Name {
+		return false
+	}
+	over := map[string]ast.Expr{}
+	for _, stt := range fd.Body.List[1 : len(fd.Body.List)-1] {
+		as, ok := stt.(*ast.AssignStmt)
+		if !ok || as.Tok != token.ASSIGN || len(as.Lhs) != len(as.Rhs) {
+			return false // anything else between the copy and the return: not this pattern
+		}
+		for i, l := range as.Lhs {
+			sel, ok := unparen(l).(*ast.SelectorExpr)
+			if !ok {
+				return false
+			}
+			if id, ok := unparen(sel.X).(*ast.Ident); !ok || id.Name != cv.Name {
+				return false
+			}
+			over[sel.Sel.Name] = as.Rhs[i]
+		}
+	}
+	state := a.stateFields(recvType)
+	emit("<new:"+recvType+">", "fresh", fd.Pos())
+	for _, f := range st.Fields.List {
+		names := f.Names
+		if len(names) == 0 {
+			emit("<embedded>", "opaque", f.Pos())
+			continue
+		}
+		for _, n := range names {
+			if val, ok := over[n.Name]; ok {
+				switch {
+				case a.isCloneCall(val):
+					emit(n.Name, "cloned", val.Pos())
+				case a.fieldClass(f.Type) == "query":
+					if id, ok := unparen(val).(*ast.Ident); ok && id.Name == "nil" {
+						emit(n.Name, "value", val.Pos())
+					} else {
+						emit(n.Name, "shared", val.Pos())
+					}
+				default:
+					// an explicit reset / new value of a plain field
+					if isZeroLit(val) {
+						emit(n.Name, "value", val.Pos())
+					} else if a.fieldClass(f.Type) == "value" {
+						emit(n.Name, "value", val.Pos())
+					} else {
+						emit(n.Name, "ref", val.Pos())
+					}
+				}
+				continue
+			}
+			switch {
+			case a.fieldClass(f.Type) == "query":
+				emit(n.Name, "shared", fd.Pos())
+			case state[n.Name]:
+				emit(n.Name, "state-copied", fd.Pos())
+			case a.fieldClass(f.Type) == "value":
+				emit(n.Name, "value", fd.Pos())
+			default:
+				emit(n.Name, "ref", fd.Pos())
+			}
+		}
+	}
+	return true
+}
+
+func isZeroLit(e ast.Expr) bool {
+	switch v := unparen(e).(type) {
+	case *ast.Ident:
+		return v.Name == "nil" || v.Name == "false"
+	case *ast.BasicLit:
+		return v.Value == "0" || v.Value == `""`
+	}
+	return false
 }
 
 func (a *analyzer) cloneResult(recvName, recvType string, res ast.Expr, guards []string, emit func(field, class string, at token.Pos)) {
